@@ -74,6 +74,7 @@ pub fn suite() -> Simple {
             let reply = run_probe(argv);
             tally(format!("outcome-{}", reply.split(' ').next().unwrap_or("")));
             tally(format!("words-{}", argv.len().min(9)));
+            if section(&reply, "valid") == Some("0") { tally("accepted-line-refused-by-validate_options".into()); }
             match section(&reply, "export") {
                 Some("err") => tally("exporter-refused".into()),
                 Some(e) => {
@@ -131,7 +132,24 @@ pub fn suite() -> Simple {
                 let ok = pos.is_some_and(|p| p >= 2 && imp[p - 2] == b"-c" && imp[p - 1] == b"core.ignorecase=false");
                 if !ok { return Some(format!("[C08] `{shown}`: the importer is not started with -c core.ignorecase=false before fast-import")); }
             }
-            let _ = Regex::new("x");
+            // C11: what the documented reading (the model) makes a dry run is a dry run for the tool
+            if field(r, "dry") == Some("0") && argv.iter().any(|a| a == b"--dry-run") {
+                let mut bad: Vec<Vec<u8>> = Vec::new();
+                for a in argv { if std::str::from_utf8(a).map(|s| Regex::new(s).is_err()).unwrap_or(true) && !bad.contains(a) { bad.push(a.clone()); } }
+                let want = _m.ask(&format!("cliargs {} {}", enc_list(&bad), enc_list(argv)));
+                if field(&want, "dry") == Some("1") {
+                    return Some(format!("[C11] `{shown}`: --dry-run stands where a flag is read, yet the run is a real one"));
+                }
+            }
+            // C11: the same words without --dry-run start the same exporter
+            if field(r, "dry") == Some("1") {
+                let without: Args = argv.iter().filter(|a| a.as_slice() != b"--dry-run").cloned().collect();
+                let r2 = run_probe(&without);
+                let opts = |x: &str| x.split('|').next().unwrap_or("").replace("dry=1", "dry=0").replace("cleanup=none", "cleanup=*").replace("cleanup=standard", "cleanup=*");
+                if r2.starts_with("ok ") && field(&r2, "dry") == Some("0") && opts(&r2) == opts(r) && section(&r2, "export") != section(r, "export") {
+                    return Some(format!("[C11] `{shown}`: with --dry-run the exporter is started differently than without it (the preview cannot be what the real run imports)"));
+                }
+            }
             None
         }),
         shrinkable: vec![],
@@ -235,7 +253,7 @@ pub fn gen(rng: &mut Rng) -> (Args, bool) {
 pub fn run(tier: &str, seed: u64, model: &mut Model) -> Vec<Suite> {
     let n = if tier == "thorough" { 12_000 } else { 1_200 };
     let mut rng = Rng::new(seed ^ 0xC1A5);
-    let mut rep = Suite::new("cliargs", &format!("{n} command lines of 0 to 8 options drawn from every flag of parse_args (30 without a value, 39 with one, the --cleanup look-ahead, --cleanup=<mode>, --config in both spellings, help/version, unknown words), values from per-flag pools of accepted and refused spellings (paths with backslashes, absolute, with dot segments, drive letters; OLD:NEW with zero to two colons; sizes around 2^64; durations; timestamps; modes; integers with underscores and signs; valid and invalid regexes), another flag or a clean-up word in the place of a value, a missing last value, --debug-mode anywhere on half of the lines. A quarter of the lines are about what the exporter is asked for (content rules, size and id filters, --no-data, same or separate --source/--target, --dry-run, the debug-only exporter switches, in shuffled order). Each line is parsed by the real parse_args in a child process (the optsprobe binary, empty directory, debug/config environment removed) and by Cli.parseArgs; the 51 fields of the resulting Options, or the way the process ends, must agree, and for accepted lines so must the command lines build_fast_export_cmd / build_fast_import_cmd produce (Pipes.exportCmd / importCmd; the importer's --export-marks path is left out). Non-trivial: every case."));
+    let mut rep = Suite::new("cliargs", &format!("{n} command lines of 0 to 8 options drawn from every flag of parse_args (30 without a value, 39 with one, the --cleanup look-ahead, --cleanup=<mode>, --config in both spellings, help/version, unknown words), values from per-flag pools of accepted and refused spellings (paths with backslashes, absolute, with dot segments, drive letters; OLD:NEW with zero to two colons; sizes around 2^64; durations; timestamps; modes; integers with underscores and signs; valid and invalid regexes), another flag or a clean-up word in the place of a value, a missing last value, --debug-mode anywhere on half of the lines. A quarter of the lines are about what the exporter is asked for (content rules, size and id filters, --no-data, same or separate --source/--target, --dry-run, the debug-only exporter switches, in shuffled order). Each line is parsed by the real parse_args in a child process (the optsprobe binary, empty directory, debug/config environment removed) and by Cli.parseArgs; the 51 fields of the resulting Options, or the way the process ends, must agree, and for accepted lines so must the command lines build_fast_export_cmd / build_fast_import_cmd produce (Pipes.exportCmd / importCmd; the importer's --export-marks path is left out) and the verdict of lib.rs validate_options (Pipes.validCli). Non-trivial: every case."));
     let def = suite();
     // the outcomes seen, for the evidence
     let mut cases: Vec<(Args, bool)> = Vec::with_capacity(n);
